@@ -13,6 +13,7 @@ export PYTHONPATH="$wt" PYTHONDONTWRITEBYTECODE=1
 if ! git -C "$wt" apply "$out/patch.diff" 2>"$out/apply.log"; then echo "$name: PATCH DOES NOT APPLY"; git -C /repo worktree remove --force "$wt"; exit 2; fi
 ( cd "$wt" && timeout 600 /venv/bin/python "$out/demo.py" >"$out/demo_modified.log" 2>&1 ); d1=$?
 tests="skipped"
+if [ -f "$out/verify.json" ]; then tests=$(/venv/bin/python -c "import json,sys; print(json.load(open(sys.argv[1])).get('tests_with_change','skipped'))" "$out/verify.json"); fi
 if [ "${SKIP_TESTS:-0}" != "1" ]; then
   tests=$( cd "$wt" && /venv/bin/python -m pytest -q -p no:cacheprovider -n ${NTEST:-6} --timeout=900 2>&1 | tail -1 )
 fi
